@@ -100,7 +100,7 @@ func c18HTMLCases(c *Ctx) {
 	os.Setenv("XDG_CONFIG_HOME", cwd) // settings.json is looked up (never written) under the scratch dir
 	os.Setenv("HOME", cwd)
 	pages := []string{"/top", "/flamegraph", "/peek?f=.", "/source?f=.", "/top?si=cpu", "/flamegraph?tagroot=k", "/peek?f=zq", "/source?f=zq"}
-	n := c.Budget(12, 400)
+	n := c.Budget(12, 120)
 	for i := 0; i < n; i++ {
 		p := c18HTMLProfile(c.R)
 		hs, err := driver.VerifWebHandlers(p, c18UI{}, c18Obj{})
